@@ -75,19 +75,19 @@ def decode(idx, depth):
 
 def plan(tier):
     depth = 3 if tier == "quick" else 4
-    nsweep = len(SWEEP_CFG) * sweep_total(depth) // (4 if tier == "quick" else 1) * 2
-    extra = 15000 if tier == "quick" else 300000
+    nsweep = len(SWEEP_CFG) * sweep_total(depth) // (8 if tier == "quick" else 1) * 2
+    extra = 9000 if tier == "quick" else 300000
     return {"cases": nsweep + extra, "shards": 8 if tier == "quick" else 14, "min_nontrivial": 300,
             "timeout": 600 if tier == "quick" else 2400,
-            "require": {"calls": 100000, "hops_judged": 20000, "ticks_in_terminal_phase": 1000, "unstarted_first_ticks": 500,
-                        "timeouts_forced": 200, "error_limit_forced": 500, "renewals_refused": 500, "lock_acquisitions": 50000,
-                        "invariant_evaluations": 100000, "thread_schedules": 2000, "thread_outcomes_judged": 2000}}
+            "require": {"calls": 50000, "hops_judged": 10000, "ticks_in_terminal_phase": 1000, "unstarted_first_ticks": 500,
+                        "timeouts_forced": 40, "error_limit_forced": 500, "renewals_refused": 500, "lock_acquisitions": 50000,
+                        "invariant_evaluations": 100000, "thread_schedules": 1000, "thread_outcomes_judged": 1000}}
 
 
 def run_case(ctx, n):
     depth = 3 if ctx.tier == "quick" else 4
     per = sweep_total(depth)
-    div = 4 if ctx.tier == "quick" else 1
+    div = 8 if ctx.tier == "quick" else 1
     nsweep = len(SWEEP_CFG) * per // div * 2
     if n < nsweep:
         half, k = divmod(n, nsweep // 2)
